@@ -213,3 +213,80 @@ lex!(c09_tok_raw_ascii, 8, [1, 1, 1, 1], { text![b'r', b'"', ascii(), ascii()] }
 fn c09_tok_canary() {
     lex_step(text![b'a', ascii(), ascii()], 0b1111, true);
 }
+
+// ---------------------------------------------------------------------------------------------
+// `unescape_string_literal`: called by the grammar on the text of every string literal token,
+// including literals the lexer has already reported an invalid escape code for (error recovery
+// keeps parsing).  Never panics; recognised escapes become their character, everything else is
+// kept byte for byte.
+// Written in the third session; NOT decided: 13-18 min each and then out of memory at 10 GB on
+// 3-4 byte texts (`String::push_str` growth + `bytes().position` on a moving suffix).  Extended
+// tier, not registered.
+// ---------------------------------------------------------------------------------------------
+
+fn unescaped(s: &'static str) -> ManuallyDrop<String> {
+    ManuallyDrop::new(unescape_string_literal(s))
+}
+
+fn escape_of(e: u8) -> Option<u8> {
+    match e {
+        b'\'' => Some(b'\''),
+        b'"' => Some(b'"'),
+        b'\\' => Some(b'\\'),
+        b'/' => Some(b'/'),
+        b'n' => Some(b'\n'),
+        b'r' => Some(b'\r'),
+        b't' => Some(b'\t'),
+        _ => None,
+    }
+}
+
+//@ tier=extended cap=3000 mem=24 funcs=unescape_string_literal bound=backslash_then_any_ASCII_byte_then_any_ASCII_byte
+#[kani::proof]
+#[kani::unwind(6)]
+fn c09_unescape_ascii() {
+    let (e, a) = (ascii(), ascii());
+    kani::assume(a != b'\\');
+    let out = unescaped(text![b'\\', e, a]);
+    let o = out.as_bytes();
+    match escape_of(e) {
+        Some(c) => assert!(o.len() == 2 && o[0] == c && o[1] == a, "a recognised escape becomes its character"),
+        None => assert!(o.len() == 3 && o[0] == b'\\' && o[1] == e && o[2] == a, "an unknown escape is kept as written"),
+    }
+    kani::cover!(o.len() == 2, "escape recognised");
+    kani::cover!(o.len() == 3, "escape unknown");
+}
+
+//@ tier=extended cap=3000 mem=24 funcs=unescape_string_literal bound=backslash_then_any_2_byte_char;ASCII_then_backslash_at_the_end
+#[kani::proof]
+#[kani::unwind(6)]
+fn c09_unescape_w2_and_trailing() {
+    let (l, c) = (lead2(), cont());
+    let out = unescaped(text![b'\\', l, c]);
+    let o = out.as_bytes();
+    assert!(o.len() == 3 && o[0] == b'\\' && o[1] == l && o[2] == c, "backslash before a multi-byte character: kept as written");
+    let a = ascii();
+    kani::assume(a != b'\\');
+    let out2 = unescaped(text![a, b'\\']);
+    let o2 = out2.as_bytes();
+    assert!(o2.len() == 2 && o2[0] == a && o2[1] == b'\\', "a backslash that ends the text is kept");
+    kani::cover!(true, "both texts unescaped");
+}
+
+//@ tier=extended cap=3000 mem=24 funcs=unescape_string_literal bound=backslash_then_any_3_byte_char;two_backslashes_then_any_ASCII_byte
+#[kani::proof]
+#[kani::unwind(7)]
+fn c09_unescape_w3_and_double() {
+    let (l, c) = lead3();
+    let d = cont();
+    let out = unescaped(text![b'\\', l, c, d]);
+    let o = out.as_bytes();
+    assert!(o.len() == 4 && o[0] == b'\\' && o[1] == l && o[2] == c && o[3] == d, "backslash before a 3-byte character: kept as written");
+    // `\\` is one backslash; the byte after it is not the start of another escape
+    let e = ascii();
+    kani::assume(e != b'\\');
+    let out2 = unescaped(text![b'\\', b'\\', e]);
+    let o2 = out2.as_bytes();
+    assert!(o2.len() == 2 && o2[0] == b'\\' && o2[1] == e, "an escaped backslash does not start another escape");
+    kani::cover!(true, "both texts unescaped");
+}
